@@ -66,6 +66,7 @@ class Ctx:
         self.trusted: list[str] = []
         self.bounded_notes: list[str] = []
         self.selfcheck: dict = {}
+        self.errors: list[str] = []       # obligations on which the machinery itself crashed
         self.extra: dict = {}
 
     # -- bookkeeping ---------------------------------------------------------------------------
@@ -221,8 +222,12 @@ def finish(ctx: Ctx, level, technique, explanation, checker_cmd):
     print(f"[{ctx.pid}] tier={ctx.tier} obligations={obligations} discharged={discharged} "
           f"known-findings={len(known_hit)} violations={len(new_viol)} undecided={len(ctx.undecided)} "
           f"wall={ev['wall_s']}s")
+    for e in ctx.errors[:5]:
+        print(f"CHECKER-ERROR property={ctx.pid} {e[:400]}", file=sys.stderr)
     if new_viol:
         return 1
+    if ctx.errors:
+        return 3
     if ctx.undecided:
         return 2
     if obligations == 0:
